@@ -60,6 +60,15 @@ func (x *Exec) callExternal(st *State, call *ast.CallExpr, callee *types.Func, p
 			return []Value{sc(App(SFl, "u_ceil", a))}
 		}
 		return []Value{sc(App(SReal, "ceilR", a))}
+	case "math.Round":
+		a := f64(args()[0])
+		if x.mode == "U" {
+			return []Value{sc(App(SFl, "u_round", a))}
+		}
+		return []Value{sc(App(SReal, "roundR", a))}
+	case "math.Trunc":
+		a := f64(args()[0])
+		return []Value{sc(ToReal(App(SInt, "truncR", a)))}
 	case "math.Floor":
 		a := f64(args()[0])
 		if x.mode == "U" {
